@@ -423,7 +423,8 @@ class BaseProperty(base.BaseObject):
         2
         3
         """
-        return list(self._values)
+        # The values of an n-tuple Property are lists themselves and are copied as well.
+        return [list(val) if isinstance(val, list) else val for val in self._values]
 
     @values.setter
     def values(self, new_value):
